@@ -234,4 +234,40 @@ mod verif_witness_c09_sweep {
         }
         assert_eq!(bad, 0);
     }
+
+    /// "an interrupted search still answers with exactly one bestmove": through go(), the entry point the engine uses, with
+    /// the interruption (stop / quit / stop+quit / quit with company) already queued so that the first poll picks it up, and
+    /// with a move-time limit that runs out in the middle of an iteration.  Exactly one BestMove command must be on the wire.
+    #[test]
+    fn verif_witness_c09_interruption_one_bestmove_per_go() {
+        let parsed = Fen::from_str("rnbqkbnr/pppppppp/8/8/8/8/PPPPPPPP/RNBQKBNR w KQkq - 0 1").unwrap();
+        let mut bad = 0;
+        for case in 0..6 {
+            let (uci_tx, uci_rx) = channel();
+            let (search_tx, search_rx) = channel();
+            let mut search = Search::new(Arc::new(CommandUciTx::new(uci_tx)), search_rx, SimpleHeuristic, MvvLvaMoveOrder, EngineOptions::default());
+            search.set_position_from(parsed.clone(), vec![UciMove::parse("e2e4").unwrap(), UciMove::parse("e7e5").unwrap()]);
+            let what = match case {
+                0 => { search_tx.send(SearchMessage::UciStop).unwrap(); "stop" }
+                1 => { search_tx.send(SearchMessage::UciQuit).unwrap(); "quit" }
+                2 => { search_tx.send(SearchMessage::UciStop).unwrap(); search_tx.send(SearchMessage::UciQuit).unwrap(); "stop, quit" }
+                3 => { search_tx.send(SearchMessage::UciUciNewGame).unwrap(); search_tx.send(SearchMessage::UciQuit).unwrap(); "ucinewgame, quit" }
+                4 => "movetime 150",
+                _ => "depth 2 (not interrupted)",
+            };
+            search.params.go = match case {
+                4 => Go { move_time: Some(std::time::Duration::from_millis(150)), ..Go::default() },
+                5 => Go { depth: Some(2), ..Go::default() },
+                _ => Go { depth: Some(6), ..Go::default() },     // bounded, so that a lost interruption cannot hang the probe
+            };
+            search.go();
+            let mut n = 0;
+            while let Ok(c) = uci_rx.try_recv() { if let UciTxCommand::BestMove { .. } = c { n += 1; } }
+            if n != 1 {
+                println!("FAILING-INPUT: position startpos moves e2e4 e7e5, go with [{}] pending: {} bestmove commands were sent, expected exactly 1", what, n);
+                bad += 1;
+            }
+        }
+        assert_eq!(bad, 0);
+    }
 }
